@@ -267,10 +267,17 @@ def check_search(ctx, out, rule="C01.search"):
 
 def check_affects(ctx, out):
     name = "affects"
-    vb = ctx.validate_body(name)
-    if vb is None:
+    raw = ctx.validate_body(name)
+    if raw is None:
         out.inst("C01.guard", 0, 3)
         return
+    # as written, and normalised (an index built by a helper / a pipeline reads like the loop in place)
+    from engine.core import on_any_view
+    on_any_view(out, [raw, ctx.validate_body(name, inline=True, sugar=True)], lambda v, o: _check_affects(ctx, o, v))
+
+
+def _check_affects(ctx, out, vb):
+    name = "affects"
     cfg = cfg_of(vb)
     E = ctx.expr(vb)
     n_guard = 0
@@ -289,7 +296,7 @@ def check_affects(ctx, out):
     # the index of modified blocks: a map or a set keyed by (file, name)
     def is_index(t):
         a0 = (t.get("arg_tys") or [""])[0]
-        return re.search(r"(HashMap|HashSet|BTreeMap|BTreeSet)<\(std::path::PathBuf, std::string::String\)", a0) is not None
+        return re.search(r"(HashMap|HashSet|BTreeMap|BTreeSet)<\(&?(std::path::PathBuf|std::path::Path), &?(std::string::String|str)\)", a0) is not None
     index_sites = [(bi, t) for bi, t in vb.calls() if callee_matches(t, r"(HashMap::<K, V, S, A>|BTreeMap::<K, V, A>)::(entry|insert)$|(HashSet::<T, S, A>|BTreeSet::<T, A>)::insert$") and is_index(t)]
     lookups = [(bi, t) for bi, t in vb.calls() if callee_matches(t, r"(HashMap::<K, V, S, A>|BTreeMap::<K, V, A>)::(contains_key|get)$|(HashSet::<T, S, A>|BTreeSet::<T, A>)::contains$") and is_index(t)]
     for bi, t in index_sites:
@@ -335,7 +342,8 @@ def check_affects(ctx, out):
         lbi, lt = lookups[0]
         ity = (it.get("arg_tys") or ["", ""])[1]
         lty = (lt.get("arg_tys") or ["", ""])[1]
-        if KEYTY in ity and KEYTY in lty:
+        KEYRX = r"\(&?(std::path::PathBuf|std::path::Path), &?(std::string::String|str)\)"
+        if re.search(KEYRX, ity) and re.search(KEYRX, lty):
             n_key += 1
         else:
             out.viol("C01.key", "C01.key|shape", ctx.where(vb, it["span"]),
@@ -358,42 +366,53 @@ def check_affects(ctx, out):
         l1 = ctx.prov.read_place(vb, {"l": lpl["l"], "p": lpl["p"] + [{"f": "1"}]}) if lpl else set()
         parse_fns = [c for c in ctx.region(vb) if c.local_ty(0).startswith("std::result::Result<std::vec::Vec<(std::option::Option<std::path::PathBuf>, std::string::String)>")]
         pid = parse_fns[0].id if parse_fns else None
-        if pid and P.has_call(l1, re.escape(pid) + "$") and P.has_call(l0, re.escape(pid) + "$"):
+        def from_ref(labs):
+            if pid and P.has_call(labs, re.escape(pid) + "$"):
+                return True
+            return P.has_call(labs, r"<impl str>::split_once$") and P.has_const(labs, "affects")
+        if from_ref(l1) and from_ref(l0):
             n_key += 1
         else:
             out.viol("C01.key", "C01.key|lookup-source", ctx.where(vb, lt["span"]), "the looked-up key does not derive from the parsed `affects` reference")
-        # fallback of an empty file part = file of the modified block (the loop the lookup is in)
-        fb = [(bi, t) for bi, t in vb.calls() if callee_matches(t, r"Option::<T>::(unwrap_or_else|unwrap_or|map_or|map_or_else)$") and "PathBuf" in (t.get("dest_ty") or "")]
-        ok = False
-        for bi, t in fb:
-            labs = set()
-            for a in t["args"][1:]:
-                labs |= ctx.prov.read_operand(vb, a)
-                pl = util.op_place(a)
-                if pl is not None:
-                    adt = vb.locals[pl["l"]].get("adt")
-                    cb = ctx.facts.body(adt) if adt else None
-                    if cb is not None:
-                        ret = ctx.prov.read_local(cb, 0, ())
-                        labs |= ctx.prov.resolve_upvars(cb, ret)
-            # the loop the fallback is evaluated in
-            loops_here = cfg.loops_containing(bi)
-            its = [x for x in util.loop_of_next(ctx, vb, r"\.blocks\b") if x[0] in loops_here]
-            loopkeys = set()
-            for hh, bl, nb in its:
-                nt = vb.blocks[nb]["term"]
-                loopkeys |= {l for l in ctx.prov.read_local(vb, nt["dest"]["l"], ("0", "0")) if l[0] != "const"}
-            nonconst = {l for l in labs if l[0] not in ("const", "fn")}
-            if its and nonconst and nonconst <= loopkeys:
-                ok = True
-            elif labs:
-                out.viol("C01.key", "C01.key|fallback", ctx.where(vb, t["span"]),
-                         "an empty file part of a reference falls back to [%s]; expected the path of the file that contains the modified block, taken from the current iteration" % util.origins_text(labs, 5))
-                ok = True
-        if ok:
+        # fallback of an empty file part = file of the modified block (the loop the lookup is in): the file
+        # part of the looked-up key derives from the parsed reference and, besides, only from the key
+        # of the file iteration that encloses the lookup
+        loops_here = cfg.loops_containing(lbi)
+        its = [x for x in util.loop_of_next(ctx, vb, r"\.blocks\b") if x[0] in loops_here]
+        loopkeys = set()
+        for hh, bl, nb in its:
+            nt = vb.blocks[nb]["term"]
+            loopkeys |= {l for l in ctx.prov.read_local(vb, nt["dest"]["l"], ("0", "0")) if l[0] != "const"}
+        ref_labs = set()
+        for bi, t in vb.calls():
+            if (pid and (t.get("res") or "") == pid) or (callee_matches(t, r"HashMap::<K, V, S, A>::get$") and len(t["args"]) > 1 and util.const_val(ctx, vb, t["args"][1]) == "affects"):
+                ref_labs |= {l for l in ctx.prov.read_operand(vb, t["args"][0] if (t.get("res") or "") == pid else t["args"][0]) if l[0] != "const"}
+                ref_labs |= {l for l in ctx.prov.read_place(vb, t["dest"]) if l[0] != "const"}
+        CONV = r"(Clone>?::clone|Path(Buf)?::(as_path|to_path_buf|from|new|as_ref)|Option::<T>::(as_deref|as_ref|unwrap_or|unwrap_or_else|unwrap_or_default|cloned|map|map_or|map_or_else)|From<.*>>?::from|Into<.*>>?::into|ToOwned>?::to_owned|Deref>?::deref|AsRef<.*>>?::as_ref|Borrow<.*>>?::borrow|Iterator>?::next|IntoIterator>?::into_iter)$"
+        ref_calls = {l[1] for l in ref_labs if l[0] == "call"}
+        own, stray = set(), set()
+        PARSE = r"(<impl str>::(split_once|rsplit_once|split|trim|trim_start|trim_end|is_empty|to_string|to_owned)|<impl bool>::(then|then_some)|anyhow::(Context|context).*::(with_context|context)|ops::Try>?::branch|FromResidual.*::from_residual|Vec::<T, A>::(push|new|with_capacity)|Vec::<T>::(new|with_capacity)|Iterator>?::(map|collect|next)|IntoIterator>?::into_iter|FromIterator.*::from_iter|HashMap::<K, V, S, A>::get|ToString>?::to_string|String::(as_str|from)|Result::<T, E>::(map|ok)|Option::<T>::(ok_or|ok_or_else|filter)|fmt::rt::Argument::<'_>::new_\w+|fmt::Arguments::<'a>::new\w*|fmt::format|hint::must_use|anyhow::__private::\w+|anyhow::Error::msg|anyhow::error::<impl anyhow::Error>::msg)$"
+
+        def extends(l, k):
+            return l[:2] == k[:2] and tuple(l[2][:len(k[2])]) == tuple(k[2])
+        for l in l0:
+            if l[0] in ("const", "fn"):
+                continue
+            if l[0] == "call":
+                if not (l[1] in ref_calls or re.search(CONV, l[1]) or re.search(PARSE, l[1])):
+                    stray.add(l)
+                continue
+            if any(extends(l, k) for k in loopkeys):
+                own.add(l)
+            elif not any(extends(l, r) for r in ref_labs if r[0] != "call"):
+                stray.add(l)
+        if its and own and not stray:
             n_key += 1
-        elif not fb:
-            out.viol("C01.key", "C01.key|no-fallback", ctx.where(vb), "no fallback for a reference with an empty file part (`:name`) found")
+        elif not own:
+            out.viol("C01.key", "C01.key|no-fallback", ctx.where(vb, lt["span"]), "no fallback for a reference with an empty file part (`:name`) found: the file part of the looked-up key never derives from the file of the modified block")
+        else:
+            out.viol("C01.key", "C01.key|fallback", ctx.where(vb, lt["span"]),
+                     "an empty file part of a reference falls back to [%s]; expected the path of the file that contains the modified block, taken from the current iteration" % util.origins_text(stray, 12))
         # one push per missing reference: push guarded by contains_key == false, inside the loop over references
         pushes = util.violation_push_sites(vb)
         for bi, t in pushes:
@@ -402,8 +421,9 @@ def check_affects(ctx, out):
                 # the guard is the lookup itself (`guards` reports `!x` as a test on x with swapped arms)
                 if e[0] == "call" and len(e) > 3 and e[3] == lbi:
                     good = vals == {0}
-            refloops = util.loop_of_next(ctx, vb, re.escape(pid.split("::")[-1]) if pid else "parse_affects")
-            in_ref_loop = any(bi in (util.iter_region(vb, nb) | set(bl)) for h, bl, nb in refloops)
+            refloops = [(cfg.innermost_loop(x), x) for x, tt in vb.calls() if callee_matches(tt, r"Iterator>?::next$") and cfg.innermost_loop(x) is not None
+                        and re.search(r"\(std::option::Option<std::path::PathBuf>, std::string::String\)", (tt.get("arg_tys") or [""])[0] + " " + vb.local_ty((util.op_place(tt["args"][0]) or {"l": 0})["l"]))]
+            in_ref_loop = any(bi in (util.iter_region(vb, nb) | set(cfg.loops()[hh])) for hh, nb in refloops)
             if good and in_ref_loop:
                 n_key += 1
             else:
